@@ -11,7 +11,6 @@ import json
 
 from vlib import common as C
 
-STASH_PENDING_SIG = "stash-of-pending-initial-loses-ai-lines"
 BRANCHY_OUTSIDE = ("merge", "rebase", "cherry-pick", "revert", "rm", "mv")
 
 
@@ -256,22 +255,6 @@ def tie(res, runs, explained_sigs):
         if bad:
             if any(sig in explained_sigs for sig, _ in failures):
                 ev["explained_by_oracle"] += len(bad)
-                continue
-            pend = set(resp.get("pendingStash") or [])
-            # the family: every pending line of the stashed file is lost. The binary then credits, on that file, only
-            # lines the model credits too and none of the lost block (a PARTIAL loss inside a block — shifted line
-            # numbers — is not this family)
-            def total_loss(b):
-                lost = sorted(int(l) for l in set(b["predicted"]) - set(b["observed"]))
-                kept = set(int(l) for l in b["observed"])
-                return bool(lost) and not any((l - 1) in kept or (l + 1) in kept for l in lost)
-            if pend and all(b.get("path") in pend and set(b["observed"].items()) <= set(b["predicted"].items()) and total_loss(b)
-                            for b in bad):
-                # the binary credits LESS than the model, on a file that was stashed while its INITIAL claims were pending
-                ev["stash_of_pending_initial"] = ev.get("stash_of_pending_initial", 0) + len(bad)
-                res.oracle_failure(STASH_PENDING_SIG, {"run": label, "first": bad[0], "paths": sorted(pend),
-                                                       "steps": [{k_: v for k_, v in st.items() if k_ in ("op", "who", "path", "content", "args", "rc")} for st in steps]},
-                                   what="AI lines pending in INITIAL are lost by git stash (model keeps them)")
                 continue
             ev["disagreements"] += len(bad)
             badruns.append({"run": label, "first": bad[0], "n": len(bad), "request": request_of(tr),
